@@ -24,8 +24,10 @@ class C04(C01):
         "on every edge of the family at the geometrically same end."
     )
     partial_note = (
-        "the agreement of the inversion parity with the geometric orientation (preserve honoured 'at the geometrically same "
-        "end' across anti-aligned hops) is checked on the written file and by correspondence, not proved"
+        "orientability of the block directions (hypothesis WireCoh of T_C04_parity / T_C04_preserved_*_family) is decided per generated "
+        "case, not proved for all inputs; the steps that need brentq / a k-th root are solver answers validated against C03's exact "
+        "specification, not computed; equality of gradings on shared edges is to Grading.__eq__'s tolerance (1e-7), exact vs float "
+        "arithmetic is compared to 1e-6; that blockMesh lays the written (count, expansion) out as the geometric progression is C03's premise"
     )
 
     def gen_cases(self, rng: random.Random, tier: str) -> List[dict]:
